@@ -348,6 +348,33 @@ func TestC06Generics(t *testing.T) {
 			}
 		}
 	}
+	// callbacks on methods of instantiated generic types receive the receiver unchanged (the other parameters of such
+	// methods are the business of C01's generic finding: they are shifted by the dictionary word)
+	{
+		b := mocker.Create()
+		var seen [3]uintptr
+		var perr interface{}
+		func() {
+			defer func() { perr = recover() }()
+			b.Struct(&G[int]{}).Method("Inner").Apply(func(g *G[int], a int) int { seen[0] = uintptr(unsafe.Pointer(g)); return 1 })
+			b.Struct(&G[*GA]{}).Method("Inner").Apply(func(g *G[*GA], a int) int { seen[1] = uintptr(unsafe.Pointer(g)); return 2 })
+			b.Struct(Box[string]{}).Method("Count").Apply(func(x Box[string]) int { seen[2] = uintptr(x.n); return 3 })
+		}()
+		got := [3]int{}
+		if perr == nil {
+			func() {
+				defer func() { perr = recover() }()
+				got = [3]int{gi.Inner(1), ga.Inner(1), bs.Count()}
+			}()
+		}
+		rep.Eval(3)
+		rep.Class("generic/receiver-handed-to-callback")
+		want := [3]uintptr{uintptr(unsafe.Pointer(gi)), uintptr(unsafe.Pointer(ga)), uintptr(bs.n)}
+		if perr != nil || got != [3]int{1, 2, 3} || seen != want {
+			rep.Violate("C06/receiver-not-handed-over", fmt.Sprintf("Apply on G[int].Inner, G[*GA].Inner, Box[string].Count: results %v (want [1 2 3]), receivers seen %#x, want %#x, panic %v", got, seen, want, perr), nil)
+		}
+		b.Reset()
+	}
 	rep.Sample(map[string]interface{}{"generic": "G[T].Get", "instantiations": []string{"int", "int64", "string", "*GA", "*GB", "[2]int"}})
 }
 
